@@ -14,8 +14,11 @@ UNWIRE = {v: k for k, v in WIRE.items()}
 def pkt(cmd, a0, a1, data=b"", bad_sum=False, bad_cmd=False):
     w = WIRE[cmd]
     if bad_cmd:
-        # True: flip one low bit; an int: XOR mask (e.g. a high bit, giving a non-ASCII command word)
-        w ^= 0x100 if bad_cmd is True else int(bad_cmd)
+        # True: flip one low bit; an int: XOR mask (e.g. a high bit, giving a non-ASCII command word); bytes: that very word
+        if isinstance(bad_cmd, (bytes, bytearray)):
+            w = struct.unpack("<I", bytes(bad_cmd))[0]
+        else:
+            w ^= 0x100 if bad_cmd is True else int(bad_cmd)
     s = sum(data) & 0xFFFFFFFF
     if bad_sum:
         # True: off by one; "zero": the field is 0; an int: that value
@@ -240,7 +243,8 @@ class SimDevice(object):
         if not st.closed:
             st.closed = True
             if not self.cfg.get("no_clse_reply"):
-                self.send(A_CLSE, st.remote, st.local)
+                # legacy devices answer a close with remote id 0
+                self.send(A_CLSE, 0 if self.cfg.get("clse_zero_remote") else st.remote, st.local)
 
     def on_wrte(self, local, remote, data):
         st = self.streams.get(local)
